@@ -149,10 +149,18 @@ def run(res, tier, seed, replay):
 
     # ---------------- real toolchain: a mixed module, imports in both directions
     files = {
-        "main.go": 'package main\n\nimport (\n"fmt"\n"example.com/proj/obf"\n"example.com/proj/plain"\n)\n\nfunc main() { fmt.Println(obf.ObfCallsPlain(3), plain.PlainCallsObf(4)) }\n',
-        "obf/obf.go": 'package obf\n\nimport "example.com/proj/plain/leaf"\n\nvar ObfMarkerVariableQZX = "obf-literal-marker-QZX-0123456789"\n\ntype ObfStructMarkerQZX struct{ ObfFieldMarkerQZX int }\n\n//go:noinline\nfunc ObfCallsPlain(n int) int { s := ObfStructMarkerQZX{n}; return leaf.LeafFuncMarkerKJW(s.ObfFieldMarkerQZX) + len(ObfMarkerVariableQZX) }\n\n//go:noinline\nfunc ObfHelperMarkerQZX(n int) int { return n * 7 }\n',
-        "plain/plain.go": 'package plain\n\nimport "example.com/proj/obf"\n\nvar PlainMarkerVariableKJW = "plain-literal-marker-KJW-0123456789"\n\n//go:noinline\nfunc PlainCallsObf(n int) int { return obf.ObfHelperMarkerQZX(n) + len(PlainMarkerVariableKJW) }\n',
-        "plain/leaf/leaf.go": 'package leaf\n\n//go:noinline\nfunc LeafFuncMarkerKJW(n int) int { return n + 1 }\n',
+        "main.go": 'package main\n\nimport (\n"fmt"\n"example.com/proj/obf"\n"example.com/proj/plain"\n)\n\nfunc main() { fmt.Println(obf.ObfCallsPlain(3), plain.PlainCallsObf(4), plain.EmbedSum(5), obf.ObfEmbedsPlain(6)) }\n',
+        "obf/obf.go": 'package obf\n\nimport "example.com/proj/plain/leaf"\n\nvar ObfMarkerVariableQZX = "obf-literal-marker-QZX-0123456789"\n\ntype ObfStructMarkerQZX struct{ ObfFieldMarkerQZX int }\n\n//go:noinline\nfunc ObfCallsPlain(n int) int { s := ObfStructMarkerQZX{n}; return leaf.LeafFuncMarkerKJW(s.ObfFieldMarkerQZX) + len(ObfMarkerVariableQZX) }\n\n//go:noinline\nfunc ObfHelperMarkerQZX(n int) int { return n * 7 }\n\n'
+                      '// embedded across the GOGARBLE boundary, in both directions\n'
+                      'type Base struct{ BaseFieldQZX int }\n\nfunc (b Base) BaseMethodQZX() int { return b.BaseFieldQZX * 2 }\n\n'
+                      'type GenBase[T any] struct{ GenFieldQZX T }\n\ntype BaseAlias = Base\n\n'
+                      'type ObfWrap struct{ leaf.LeafBase }\n\n//go:noinline\nfunc ObfEmbedsPlain(n int) int { w := ObfWrap{LeafBase: leaf.LeafBase{LeafFieldKJW: n}}; return w.LeafFieldKJW + w.LeafBase.LeafMethodKJW() }\n',
+        "plain/plain.go": 'package plain\n\nimport "example.com/proj/obf"\n\nvar PlainMarkerVariableKJW = "plain-literal-marker-KJW-0123456789"\n\n//go:noinline\nfunc PlainCallsObf(n int) int { return obf.ObfHelperMarkerQZX(n) + len(PlainMarkerVariableKJW) }\n\n'
+                          'type Wrapper struct{ obf.Base }\n\ntype PtrWrapper struct{ *obf.Base }\n\ntype GenWrapper struct{ obf.GenBase[int] }\n\ntype AliasWrapper struct{ obf.BaseAlias }\n\n'
+                          '//go:noinline\nfunc EmbedSum(n int) int {\n\tw := Wrapper{Base: obf.Base{BaseFieldQZX: n}}\n\tp := PtrWrapper{Base: &obf.Base{BaseFieldQZX: n + 1}}\n'
+                          '\tg := GenWrapper{GenBase: obf.GenBase[int]{GenFieldQZX: n + 2}}\n\ta := AliasWrapper{BaseAlias: obf.Base{BaseFieldQZX: n + 3}}\n'
+                          '\treturn w.BaseFieldQZX + w.Base.BaseMethodQZX() + p.BaseMethodQZX() + g.GenFieldQZX + a.BaseAlias.BaseFieldQZX + a.BaseMethodQZX()\n}\n',
+        "plain/leaf/leaf.go": 'package leaf\n\n//go:noinline\nfunc LeafFuncMarkerKJW(n int) int { return n + 1 }\n\ntype LeafBase struct{ LeafFieldKJW int }\n\nfunc (l LeafBase) LeafMethodKJW() int { return l.LeafFieldKJW + 10 }\n',
     }
     proj = e2e.Project("c14", files)
     caches = e2e.Caches("c14")
